@@ -88,6 +88,8 @@ func (d *qeDom) Gen(r *gen.R, tier string, emit func(string)) {
 		emit(wire.Line("reset"))
 		emit(wire.Line("lateenq", strconv.Itoa(1+i%3)))
 		emit(wire.Line("reset"))
+		emit(wire.Line("burst", strconv.Itoa(1+i%3)))
+		emit(wire.Line("reset"))
 		emit(wire.Line("shutdownlive", strconv.Itoa(1+2*i)))
 		emit(wire.Line("reset"))
 		emit(wire.Line("restartdur", "0"))
@@ -327,7 +329,7 @@ func (d *qeDom) Exec(a []string) string {
 				return "no-query-subject"
 			}
 			return "ok"
-		case "serial", "queued", "lateenq", "shutdownlive", "restartdur":
+		case "serial", "queued", "lateenq", "burst", "shutdownlive", "restartdur":
 			d.Close()
 			return qeScenario(a)
 		case "req":
